@@ -539,17 +539,34 @@ def main(run, replay=None):
             code[ci] = (what, v)
     checker_limit = []
     if retry:
-        rout = run.coq_eval_many({n: t for n, (o, t) in retry.items()}, timeout=120)
-        for n, (o, t) in retry.items():
-            rc, out = rout.get(n, (1, ""))
-            vals = parse_vals(out) if rc == 0 else None
-            if vals and len(vals) == 1:
-                code[o[0]] = (o[1], vals[0])
-            elif "Error" in out and "rror:" in out and "Killed" not in out and "imeout" not in out and rc not in (124, 137):
-                run.report({"kind": "cases-file"}, "a generated case did not evaluate", {"case": cases[o[0]], "log": out[-1500:]},
-                           found_input=False, theorem_or_case=n)
-            else:
-                checker_limit.append(o[0])     # time / memory limit of the comparison: decided by the oracle only
+        def is_limit(rc, out):
+            return rc in (124, 137) or "Killed" in out or "imeout" in out or "Out of memory" in out or "Stack overflow" in out
+        pending = dict(retry)
+        broken = []
+        for attempt in range(2):              # second attempt: transient load-path / file-system interference
+            if not pending:
+                break
+            if attempt:
+                _time.sleep(20)
+            rout = run.coq_eval_many({n: t for n, (o, t) in pending.items()}, timeout=120)
+            nxt = {}
+            for n, (o, t) in pending.items():
+                rc, out = rout.get(n, (1, ""))
+                vals = parse_vals(out) if rc == 0 else None
+                if vals and len(vals) == 1:
+                    code[o[0]] = (o[1], vals[0])
+                elif is_limit(rc, out):
+                    checker_limit.append(o[0])     # time / memory limit of the comparison: decided by the oracle only
+                else:
+                    nxt[n] = (o, t)
+                    if attempt:
+                        broken.append((n, o, out))
+            pending = nxt
+        if broken:
+            n0, o0, out0 = broken[0]
+            run.report({"kind": "cases-file"}, "%d generated case(s) did not evaluate inside Coq (first shown)" % len(broken),
+                       {"case": cases[o0[0]], "log": out0[-1500:], "count": len(broken)},
+                       found_input=False, theorem_or_case=n0)
     T["coq_cases"] = _time.time()
     # ---- decide
     stats = {"proved_equal_to_reference": 0, "model_agrees": 0, "model_none_impl_value": 0, "model_shape_differs": 0,
